@@ -278,7 +278,8 @@ func runCheck(eng *Eng, id, tier string, replay, keep bool, only string) int {
 			sem <- struct{}{}
 			defer func() { <-sem }()
 			q := c.task.query(c, nil)
-			r := runPortfolio(workDir, c.Name, q, nil, timeout, false)
+			// a cover only has to avoid being refuted: a short budget is enough (unknown counts as reachable)
+			r := runPortfolio(workDir, c.Name, q, nil, 4, false)
 			c.Result = &r
 		}()
 	}
